@@ -137,6 +137,18 @@ def run_unit(unit):
                         mut[1].append('mutated after the store')
                         mut.append('mutated after the store')
                         hist.append(('set-then-mutate', repr(k)))
+                        # ... and what a read hands out is a snapshot too: changing it does not change the archive, not even
+                        # when the same handle writes another key afterwards
+                        try:
+                            back = a[k]
+                            back.append('mutated after reading it back')
+                            back[1].append('mutated after reading it back')
+                            k3 = keys[(keys.index(k) + 1) % len(keys)]
+                            a[k3] = 'written after the read-back'
+                            model[k3] = 'written after the read-back'
+                            hist.append(('read-back-mutate-then-set', repr(k), repr(k3)))
+                        except Exception:      # noqa
+                            pass
                 # keys that alias in a dir archive are C03's finding: keep them out of this property's histories
                 want = canon(model)
                 out['distinct'] += 1
